@@ -326,6 +326,52 @@ def _(H):
     return {"id": m.id}
 
 
+def _detached(H):
+    """A reaction that was removed and has not come back (a context exit may have re-added
+    some of the remembered ones)."""
+    cand = [r for r in H.spare_rxns if getattr(r, "_model", None) is None and r.id not in H.model.reactions]
+    if not cand:
+        raise Skip()
+    return H.rng.choice(cand)
+
+
+@op("detached.bounds=", "edit", "rev", "detached", weight=0.8)
+def _(H):
+    """Edit a reaction that has been removed from the model (it may come back when a
+    context is left or through add_reactions): bounds, knock-out or sign flip."""
+    r = _detached(H)
+    q = H.rng.random()
+    if q < 0.5:
+        b = H.rng.choice([(0, 3), (-7, 7), (1, 2), (0, 0), (-4, 0)])
+        r.bounds = b
+        what = ["bounds", list(b)]
+    elif q < 0.75:
+        r.knock_out()
+        what = ["knock_out"]
+    else:
+        r *= -1
+        what = ["*=-1"]
+    return {"id": r.id, "what": what}
+
+
+@op("detached.gene_reaction_rule=", "edit", "rev", "detached", weight=0.8)
+def _(H):
+    """Change the rule of a removed reaction, keeping one of its genes if it has any."""
+    if H.model._contexts:
+        # a reaction removed inside an open context comes back on exit with the gene objects
+        # recorded at removal; what a rule edit in between means is nobody's to say
+        raise Skip()
+    r = _detached(H)
+    keep = sorted(g.id for g in r.genes)[:1]
+    pool = keep + [x.id for x in H.model.genes][:2] + [H.fresh("ng")]
+    tree = gen.gpr_tree(H.rng, pool, depth=H.rng.randint(0, 1), arity=2)
+    rule = gen.gpr_text(tree)
+    if keep and keep[0] not in rule:
+        rule = f"{keep[0]} and ({rule})"
+    r.gene_reaction_rule = rule
+    return {"id": r.id, "rule": rule}
+
+
 @op("model.add_boundary", "edit", "rev", weight=1.5)
 def _(H):
     m = H.met()
@@ -651,6 +697,10 @@ def _(H):
     ms = list(dict.fromkeys(ms))
     if H.rng.random() < 0.3:
         ms.append(H.fresh("nm") + "_c")
+    if ms and H.rng.random() < 0.3:
+        # the same metabolite in more than one term (same side: the terms add up; both
+        # sides: they cancel or leave the difference)
+        ms.insert(H.rng.randint(0, len(ms)), H.rng.choice(ms))
     arrow = H.rng.choice(["-->", "<=>", "<--", "->", "<->", "<==>"])
     k = H.rng.randint(0, len(ms))
     fmt = lambda m: m if H.rng.random() < 0.6 else f"{H.rng.choice([2, 0.5, 3])} {m}"
